@@ -116,21 +116,22 @@ pub fn check_c17(c: &EncCase, acc: &mut Acc, record: bool) -> Verdict {
                     1 => e(desert::serialize(&v.as_slice(), SizeCalculator::new())),
                     _ => e(desert::serialize(&std::rc::Rc::<[()]>::from(v), SizeCalculator::new())),
                 }
-                .and_then(|n| {
-                    // the same length as a fixed-size array type (zero-sized, so it costs nothing to build)
-                    let arr = match *len {
-                        2147483648 => Some(e(desert::serialize(&[(); 2147483648], SizeCalculator::new()))),
-                        3000000000 => Some(e(desert::serialize(&[(); 3000000000], SizeCalculator::new()))),
-                        4294967296 => Some(e(desert::serialize(&[(); 4294967296], SizeCalculator::new()))),
-                        _ => None,
-                    };
-                    match arr {
-                        Some(Ok(k)) => Err(vmodel::ErrInfo::new("ArrayAccepted", &format!("[(); {len}] was encoded to {k} bytes"))),
-                        Some(Err(x)) if x.kind != "LengthTooLarge" => Err(x),
-                        _ => Ok(n),
-                    }
-                })
             });
+            // the same length as a fixed-size array type (zero-sized, so it costs nothing to build)
+            let arr = guarded(|| {
+                let e = |r: desert::Result<SizeCalculator>| r.map(|s| s.size()).map_err(|e| vcat::errinfo(&e).kind);
+                match *len {
+                    2147483648 => Some(e(desert::serialize(&[(); 2147483648], SizeCalculator::new()))),
+                    3000000000 => Some(e(desert::serialize(&[(); 3000000000], SizeCalculator::new()))),
+                    4294967296 => Some(e(desert::serialize(&[(); 4294967296], SizeCalculator::new()))),
+                    _ => None,
+                }
+            });
+            match &arr {
+                Ok(None) => {}
+                Ok(Some(Err(k))) if k == "LengthTooLarge" => {}
+                other => return Verdict::Fail(format!("serializing [(); {len}] gave {other:?}; expected Err(LengthTooLarge)")),
+            }
             let too_large = *len > i32::MAX as usize;
             if record {
                 let class = format!("zero-sized elements x {}", if too_large { "> i32::MAX" } else { "<= i32::MAX" });
